@@ -8,7 +8,7 @@ from ..core import inf
 
 PROP = 'C06'
 GOLOMB = (0.0, 1.0, 4.0, 9.0, 15.0, 22.0, 32.0)
-SETTINGS = [{}, {'window': 1, 'penalty': 0.5}, {'psi': (1, 0, 0, 0)}, {'psi': (0, 0, 0, 1), 'window': 2}]
+SETTINGS = [{}, {'window': 1, 'penalty': 0.5}, {'psi': (1, 0, 0, 0)}, {'psi': (0, 0, 0, 1), 'window': 2}, {'max_length_diff': 1}]
 
 
 def families(n, seed):
@@ -29,7 +29,8 @@ def ref_table(series, nd, st):
     T = [[0.0] * n for _ in range(n)]
     for r in range(n):
         for c in range(n):
-            T[r][c] = oracles.dtw_ref(series[r], series[c], window=st.get('window'), penalty=st.get('penalty'), psi=st.get('psi'), ndim=nd > 1)
+            T[r][c] = oracles.dtw_ref(series[r], series[c], window=st.get('window'), penalty=st.get('penalty'), psi=st.get('psi'),
+                                      max_length_diff=st.get('max_length_diff'), ndim=nd > 1)
     return T
 
 
@@ -101,7 +102,7 @@ def check_collection(acc, E, fname, nd, series, st, do_native):
         triu = not (block is not None and len(block) > 2 and block[2] is False)
         btags = {'family': fname, 'ndim': nd, 'n': n, 'block_none': block is None, 'triu': triu, 'empty': len(sel) == 0,
                  'crosses_diag': bool(block is not None and block[0][0] < block[1][1] - 1 and block[1][0] <= block[0][1] - 1),
-                 'settings': ('psi' if st.get('psi') else 'window+penalty') if st else 'default'}
+                 'settings': ('psi' if st.get('psi') else 'max_length_diff' if 'max_length_diff' in st else 'window+penalty') if st else 'default'}
         case0 = {'family': fname, 'series': series, 'ndim': nd, 'block': block, 'settings': st}
         if block is not None and (len(sel) == 0 or not triu or block[1][0] <= block[0][0]):
             nontrivial += 1
@@ -176,7 +177,7 @@ def check_collection(acc, E, fname, nd, series, st, do_native):
         # exported C routines with an output buffer of exactly the advertised size
         if do_native:
             b = lib.block(block)
-            s = lib.settings(window=st.get('window'), penalty=st.get('penalty'), psi=st.get('psi'))
+            s = lib.settings(window=st.get('window'), penalty=st.get('penalty'), psi=st.get('psi'), max_length_diff=st.get('max_length_diff'))
             nout = len(exp)
             lens = [len(x) for x in series]
             flat = [clib.darr(clib.flat(x)) for x in series]
@@ -227,6 +228,8 @@ def jobs(tier, seed):
             for si, st in enumerate(SETTINGS):
                 if n == N and tier != 'thorough' and (fname in ('eq1',) and si == 1 or si >= 2 and fname in ('nd3u', 'eq1')):
                     continue
+                if 'max_length_diff' in st and fname not in ('uneq', 'nd3u'):
+                    continue    # equal lengths: the option cannot act
                 out.append((n, fname, si))
     return out
 
@@ -239,7 +242,7 @@ def worker(acc, shard, nshards, tier, seed):
         nd, series = families(n, seed)[fname]
         T = ref_table(series, nd, SETTINGS[si])
         vals = [T[r][c] for r in range(n) for c in range(r + 1, n)]
-        if not SETTINGS[si].get('psi'):
+        if not SETTINGS[si].get('psi') and 'max_length_diff' not in SETTINGS[si]:
             assert len(set(vals)) == len(vals), ('family does not have pairwise distinct distances', fname, n, si, vals)
         nt = check_collection(acc, E, fname, nd, series, SETTINGS[si], True)
         nb = sum(1 for _ in all_blocks(n))
@@ -259,7 +262,7 @@ def run(ctx):
     acc = core.run_sharded(worker, nshards=njobs, extra=(ctx.tier, ctx.seed))
     return core.finish(
         PROP, ctx.tier, ctx.seed, acc,
-        rule='for every collection (n = 1..N, 5 families with pairwise distinct distances, 4 DTW settings incl. one-sided psi tuples that make the distance asymmetric) EVERY block ((rb,re),(cb,ce)[,False]) with 0<=rb<re<=n, 0<=cb<ce<=n plus None is '
+        rule='for every collection (n = 1..N, 5 families with pairwise distinct distances, 5 DTW settings incl. one-sided psi tuples that make the distance asymmetric and max_length_diff=1 on the unequal-length families, which makes some pairs inf) EVERY block ((rb,re),(cb,ce)[,False]) with 0<=rb<re<=n, 0<=cb<ce<=n plus None is '
              'enumerated; a state is one (collection, block); non-trivial = block selects no pair, is non-triangular or reaches the diagonal/below',
         bounds={'N': 7 if ctx.thorough else 6, 'families': 'eq1 (len 1), eq2 (len 2), uneq (len 1..3), nd2 (2-vectors), nd3u (3-vectors, unequal length), values from a Golomb ruler',
                 'containers': 'list of lists, list of ndarray, list of array.array, 2-D ndarray, SeriesContainer; list of 2-D ndarray, 3-D ndarray',
